@@ -8,5 +8,7 @@ const (
 	VerifPtFreeSent   = 3 // barrier destructor queued a free list
 	VerifPtFreeDone   = 4 // a free worker finished one free list
 	VerifPtOpenTested = 5 // Snapshot.Open: between the zero test and the increment
-	VerifPtCloseDec   = 6 // Snapshot.Close: after the decrement
+	VerifPtCloseDec   = 6 // Snapshot.Close: the decrement reached zero, before moving between the sets
+	VerifPtGCLoop     = 7 // collectDead: top of a loop iteration
+	VerifPtGCEnd      = 8 // GC: collectDead returned, flag not yet reset
 )
